@@ -1,5 +1,5 @@
 (* Proofs for Properties/C15.v. *)
-From Coq Require Import NArith ZArith List Bool Lia.
+From Coq Require Import NArith ZArith List Bool Lia Arith Ring.
 From NGS Require Import Val Ints SlSlices.
 From NGSGen Require Import Tables.
 Import ListNotations.
@@ -188,6 +188,17 @@ Proof.
   intros code H. apply existsb_exists in H as (c & Hc & He). apply code_eqb_eq in He. subst c. exact Hc.
 Qed.
 
+(* what a forward-slice conversion yields, in terms of the permutation and the
+   two in-plane inversions (indices in the order z y x, as in a chunk) *)
+Definition gen_designated (p0 p1 p2 i0 i1 w h : Z) (dirs : list dirinfo) (x y z c : Z) : option src :=
+  match channel_source dirs 0 c with
+  | Some (di, ch) =>
+      Some {| s_dir := di; s_file := pick3 (3 - p2) z y x;
+              s_row := flip_index h i1 (pick3 (3 - p1) z y x);
+              s_col := flip_index w i0 (pick3 (3 - p0) z y x); s_ch := ch |}
+  | None => None
+  end.
+
 Definition mkjob code sx sy sz cx cy cz nch dirs : job :=
   {| j_code := code; j_size := [sx; sy; sz]; j_chunk := [cx; cy; cz]; j_nch := nch; j_dirs := dirs |}.
 
@@ -204,7 +215,11 @@ Lemma setup_cases : forall code, In code possible_axis_orientations ->
     permute [cx; cy; cz] [p0; p1; p2] = Ok [cw; chh; d] /\
     (i0 = 1 \/ i0 = -1) /\ (i1 = 1 \/ i1 = -1) /\
     (0 < sx -> 0 < sy -> 0 < sz -> 0 < w /\ 0 < h /\ 0 < n) /\
-    (0 < cx -> 0 < cy -> 0 < cz -> 0 < cw /\ 0 < chh /\ 0 < d).
+    (0 < cx -> 0 < cy -> 0 < cz -> 0 < cw /\ 0 < chh /\ 0 < d) /\
+    (slice_axis_forward code = true -> forall x y z c,
+       designated code (sx, sy, sz) dirs x y z c = gen_designated p0 p1 p2 i0 i1 w h dirs x y z c) /\
+    (Z.to_nat (n_chunks n d) * (Z.to_nat (n_chunks h chh) * Z.to_nat (n_chunks w cw)) =
+     Z.to_nat (n_chunks sx cx) * Z.to_nat (n_chunks sy cy) * Z.to_nat (n_chunks sz cz))%nat.
 Proof.
   intros code Hin sx sy sz cx cy cz nch dirs.
   unfold possible_axis_orientations in Hin. cbn [In] in Hin.
@@ -213,7 +228,9 @@ Proof.
            split; [reflexivity|]; split; [reflexivity|];
            split; [vm_compute; tauto|]; split; [vm_compute; reflexivity|];
            split; [reflexivity|]; split; [reflexivity|];
-           split; [auto|]; split; [auto|]; split; intros; repeat split; assumption|]).
+           split; [auto|]; split; [auto|]; split; [intros; repeat split; assumption|];
+           split; [intros; repeat split; assumption|];
+           split; [intro Hf; try discriminate Hf; intros; reflexivity|]; ring|]).
   contradiction.
 Qed.
 
@@ -270,7 +287,7 @@ Proof.
   pose proof (in_table _ Hc) as Hin.
   destruct (setup_cases _ Hin sx sy sz cx cy cz (j_nch j) (d0 :: dr))
     as (p0 & p1 & p2 & i0 & i1 & i2 & q & w' & h' & n' & cw & chh & d & Es & Eis' & Ei2 & _ & _ & _ & _ & _ & _ &
-        Hpos & Hcpos).
+        Hpos & Hcpos & _ & _).
   rewrite Eis in Eis'. injection Eis' as <- <- <-.
   rewrite Hrev in Ei2. subst i2.
   destruct (Hpos Hsx Hsy Hsz) as (Hw & Hh & Hn). destruct (Hcpos Hcx Hcy Hcz) as (_ & _ & Hd).
@@ -310,4 +327,376 @@ Lemma reversed_partial_output_lemma :
   map ck_coords (fst (run lpi_witness)) = [(0, 2, 0, 2, 0, 2)] /\ snd (run lpi_witness) = Crash ValueError /\
   read_back (fst (run lpi_witness)) 0 0 0 0 = designated [76; 80; 73]%N (2, 2, 3) (j_dirs lpi_witness) 0 0 0 0 /\
   read_back (fst (run lpi_witness)) 0 0 2 0 = None.
+Proof. repeat split; vm_compute; reflexivity. Qed.
+
+(* ================= forward slice axis: the run completes ================= *)
+
+Definition dir_ok (w h n : Z) (d : dirinfo) : bool :=
+  (d_files d =? n) && (d_w d =? w) && (d_h d =? h) && (0 <? dir_channels d).
+
+Lemma dir_ok_fields : forall w h n d, dir_ok w h n d = true ->
+  d_files d = n /\ d_w d = w /\ d_h d = h /\ 0 < dir_channels d.
+Proof.
+  intros w h n d H. unfold dir_ok in H. repeat (apply andb_prop in H as [H ?]).
+  apply Z.eqb_eq in H. repeat match goal with Hx : (_ =? _) = true |- _ => apply Z.eqb_eq in Hx end.
+  match goal with Hx : (0 <? _) = true |- _ => apply Z.ltb_lt in Hx end. auto.
+Qed.
+
+Lemma forward_sel : forall n d g, 0 < d -> 0 <= g -> d * g < n ->
+  group_sel n n d 1 g = zrange (d * g) (Z.min (d * (g + 1)) n - d * g).
+Proof.
+  intros n d g Hd Hg Hlt. unfold group_sel. change (1 =? -1) with false. cbv iota.
+  apply slice_forward; nia.
+Qed.
+
+Lemma check_dirs_forward : forall w h n d g dirs, 0 < d -> 0 <= g -> d * g < n ->
+  forallb (dir_ok w h n) dirs = true ->
+  check_dirs dirs (map (fun dd => group_sel (d_files dd) n d 1 g) dirs) w h = Ok tt.
+Proof.
+  intros w h n d g dirs Hd Hg Hlt. induction dirs as [|x dirs IH]; intro Hok; [reflexivity|].
+  cbn [forallb] in Hok. apply andb_prop in Hok as [Hx Hr].
+  destruct (dir_ok_fields _ _ _ _ Hx) as (Hf & Hw & Hh & _).
+  cbn [map check_dirs]. rewrite Hf, (forward_sel n d g Hd Hg Hlt).
+  destruct (zrange (d * g) (Z.min (d * (g + 1)) n - d * g)) as [|a l] eqn:E.
+  - apply (f_equal (@length Z)) in E. rewrite zrange_length in E. cbn in E. nia.
+  - rewrite Hw, Hh, !Z.eqb_refl. cbn [negb]. apply IH. exact Hr.
+Qed.
+
+Lemma write_chunks_ok : forall pr block g mkc cells nsel done,
+  (forall ri ci, In (ri, ci) cells -> chunk_of pr block g ri ci = Ok (mkc ri ci)) ->
+  write_chunks pr block g cells nsel nsel done = (done ++ map (fun '(ri, ci) => mkc ri ci) cells, Ok tt).
+Proof.
+  intros pr block g mkc cells nsel. induction cells as [|[ri ci] r IH]; intros done H.
+  - cbn. rewrite app_nil_r. reflexivity.
+  - cbn [write_chunks]. rewrite Z.eqb_refl. cbn [negb].
+    rewrite (H ri ci (or_introl eq_refl)). rewrite IH by (intros; apply H; right; assumption).
+    cbn [map]. rewrite <- app_assoc. reflexivity.
+Qed.
+
+Lemma run_groups_forward : forall p3 i0 i1 q w h n cw chh d j mkc,
+  let pr := {| pr_p := p3; pr_inv := (i0, i1, 1); pr_q := q; pr_isize := (w, h, n); pr_ichunk := (cw, chh, d) |} in
+  0 < d -> j_dirs j <> [] -> forallb (dir_ok w h n) (j_dirs j) = true ->
+  sumZl (map dir_channels (j_dirs j)) = j_nch j ->
+  (forall g ri ci, In (ri, ci) (cells_of pr) ->
+     chunk_of pr (group_block pr (j_dirs j) g) g ri ci = Ok (mkc g ri ci)) ->
+  forall groups done, (forall g, In g groups -> 0 <= g /\ d * g < n) ->
+  run_groups pr j groups done =
+    (done ++ flat_map (fun g => map (fun '(ri, ci) => mkc g ri ci) (cells_of pr)) groups, Ok tt).
+Proof.
+  intros p3 i0 i1 q w h n cw chh d j mkc pr Hd Hne Hdirs Hsum Hck.
+  induction groups as [|g r IH]; intros done Hg.
+  - cbn. rewrite app_nil_r. reflexivity.
+  - destruct (Hg g (or_introl eq_refl)) as [Hg0 Hgn].
+    cbn [run_groups]. unfold pr at 1 2 3. cbn [pr_isize pr_ichunk pr_inv].
+    rewrite (check_dirs_forward w h n d g (j_dirs j) Hd Hg0 Hgn Hdirs).
+    rewrite Hsum, Z.eqb_refl. cbn [negb].
+    assert (Hnsel : match map (fun dd => group_sel (d_files dd) n d 1 g) (j_dirs j) with
+                    | s :: _ => Z.of_nat (length s) | [] => 0 end = Z.min (d * (g + 1)) n - d * g).
+    { destruct (j_dirs j) as [|d0 dr]; [contradiction|].
+      cbn [forallb] in Hdirs. apply andb_prop in Hdirs as [Hd0 _].
+      destruct (dir_ok_fields _ _ _ _ Hd0) as (Hf & _). cbn [map]. rewrite Hf.
+      rewrite (forward_sel n d g Hd Hg0 Hgn), zrange_length. nia. }
+    rewrite Hnsel.
+    rewrite (write_chunks_ok pr _ g (mkc g)) by (intros; apply Hck; assumption).
+    rewrite IH by (intros; apply Hg; right; assumption).
+    cbn [flat_map]. rewrite <- app_assoc. reflexivity.
+Qed.
+
+(* ---------- what a group's block holds ---------- *)
+
+Lemma channel_source_ge : forall dirs start c di ch,
+  channel_source dirs start c = Some (di, ch) -> start <= di.
+Proof.
+  induction dirs as [|x l IH]; intros start c di ch E; [discriminate|].
+  cbn [channel_source] in E. destruct (c <? dir_channels x).
+  - injection E as <- _. lia.
+  - apply IH in E. lia.
+Qed.
+
+Lemma concat_channels_at : forall dirs start sel c j r col,
+  0 <= c ->
+  concat_channels (map (fun '(di, dd) => (dir_channels dd, load_block di dd (sel dd)))
+                       (combine (zrange start (Z.of_nat (length dirs))) dirs)) c j r col
+  = match channel_source dirs start c with
+    | Some (di, ch) =>
+        match nth_error dirs (Z.to_nat (di - start)) with
+        | Some dd => load_block di dd (sel dd) ch j r col
+        | None => None end
+    | None => None end.
+Proof.
+  induction dirs as [|dd dirs IH]; intros start sel c j r col Hc; [reflexivity|].
+  replace (zrange start (Z.of_nat (length (dd :: dirs))))
+    with (start :: zrange (start + 1) (Z.of_nat (length dirs))).
+  2:{ unfold zrange. cbn [length]. rewrite Nat2Z.id.
+      replace (Z.to_nat (Z.of_nat (S (length dirs)))) with (S (length dirs)) by lia.
+      cbn [seq map]. f_equal; [lia|]. rewrite <- seq_shift, map_map. apply map_ext. intro a. lia. }
+  cbn [combine map concat_channels channel_source].
+  destruct (Z.ltb_spec c (dir_channels dd)) as [Hlt|Hge].
+  - destruct (Z.leb_spec 0 c); [|lia].
+    replace (Z.to_nat (start - start)) with 0%nat by lia. reflexivity.
+  - rewrite (IH (start + 1) sel (c - dir_channels dd) j r col) by lia.
+    destruct (channel_source dirs (start + 1) (c - dir_channels dd)) as [[di ch]|] eqn:E; [|reflexivity].
+    pose proof (channel_source_ge _ _ _ _ _ E) as Hdi.
+    replace (Z.to_nat (di - start)) with (S (Z.to_nat (di - (start + 1)))) by lia. reflexivity.
+Qed.
+
+Lemma channel_source_spec : forall dirs start c di ch, 0 <= c ->
+  channel_source dirs start c = Some (di, ch) ->
+  exists dd, nth_error dirs (Z.to_nat (di - start)) = Some dd /\ 0 <= ch < dir_channels dd.
+Proof.
+  induction dirs as [|x l IH]; intros start c di ch Hc E; [discriminate|].
+  cbn [channel_source] in E. destruct (Z.ltb_spec c (dir_channels x)) as [Hlt|Hge].
+  - injection E as <- <-. exists x. replace (Z.to_nat (start - start)) with 0%nat by lia. split; [reflexivity|lia].
+  - pose proof (channel_source_ge _ _ _ _ _ E) as Hdi.
+    destruct (IH (start + 1) (c - dir_channels x) di ch ltac:(lia) E) as (dd & Hn & Hr).
+    exists dd. replace (Z.to_nat (di - start)) with (S (Z.to_nat (di - (start + 1)))) by lia.
+    split; assumption.
+Qed.
+
+Lemma flip_in_range : forall len s i, s = 1 \/ s = -1 -> 0 <= i < len -> 0 <= flip_index len s i < len.
+Proof. intros len s i [-> | ->] H; unfold flip_index; cbn; lia. Qed.
+
+Lemma group_block_at : forall p0 p1 p2 i0 i1 q w h n cw chh d dirs g c a1 a2 a3,
+  let pr := {| pr_p := (p0, p1, p2); pr_inv := (i0, i1, 1); pr_q := q;
+               pr_isize := (w, h, n); pr_ichunk := (cw, chh, d) |} in
+  0 < d -> 0 <= g -> d * g < n -> forallb (dir_ok w h n) dirs = true -> 0 <= c ->
+  (i0 = 1 \/ i0 = -1) -> (i1 = 1 \/ i1 = -1) ->
+  0 <= pick3 (3 - p2) a1 a2 a3 < Z.min (d * (g + 1)) n - d * g ->
+  0 <= pick3 (3 - p1) a1 a2 a3 < h -> 0 <= pick3 (3 - p0) a1 a2 a3 < w ->
+  group_block pr dirs g c a1 a2 a3 =
+    match channel_source dirs 0 c with
+    | Some (di, ch) =>
+        Some {| s_dir := di; s_file := d * g + pick3 (3 - p2) a1 a2 a3;
+                s_row := flip_index h i1 (pick3 (3 - p1) a1 a2 a3);
+                s_col := flip_index w i0 (pick3 (3 - p0) a1 a2 a3); s_ch := ch |}
+    | None => None end.
+Proof.
+  intros p0 p1 p2 i0 i1 q w h n cw chh d dirs g c a1 a2 a3 pr Hd Hg Hgn Hdirs Hc Hi0 Hi1 Hj Hr Hcol.
+  unfold group_block, pr. cbn [pr_p pr_inv pr_isize pr_ichunk]. unfold moveaxis_321.
+  set (j := pick3 (3 - p2) a1 a2 a3) in *. set (r := pick3 (3 - p1) a1 a2 a3) in *.
+  set (col := pick3 (3 - p0) a1 a2 a3) in *.
+  rewrite (concat_channels_at dirs 0 (fun dd => group_sel (d_files dd) n d 1 g)) by exact Hc.
+  destruct (channel_source dirs 0 c) as [[di ch]|] eqn:E; [|reflexivity].
+  destruct (channel_source_spec _ _ _ _ _ Hc E) as (dd & Hn & Hch).
+  rewrite Hn.
+  assert (Hok : dir_ok w h n dd = true).
+  { rewrite forallb_forall in Hdirs. apply Hdirs. eapply nth_error_In. exact Hn. }
+  destruct (dir_ok_fields _ _ _ _ Hok) as (Hf & Hw & Hh & _).
+  unfold load_block. rewrite Hf, Hw, Hh.
+  pose proof (flip_in_range h i1 r Hi1 Hr) as Hfr. pose proof (flip_in_range w i0 col Hi0 Hcol) as Hfc.
+  rewrite (forward_sel n d g Hd Hg Hgn), (nth_error_zrange _ _ j Hj).
+  destruct (Z.leb_spec 0 j); [|lia].
+  destruct (Z.leb_spec 0 (flip_index h i1 r)); [|lia]. destruct (Z.ltb_spec (flip_index h i1 r) h); [|lia].
+  destruct (Z.leb_spec 0 (flip_index w i0 col)); [|lia]. destruct (Z.ltb_spec (flip_index w i0 col) w); [|lia].
+  destruct (Z.leb_spec 0 ch); [|lia]. destruct (Z.ltb_spec ch (dir_channels dd)); [|lia].
+  reflexivity.
+Qed.
+
+(* ---------- reading back ---------- *)
+
+Definition chunk_value (ck : chunk) (x y z c : Z) : option src :=
+  let '(xa, _, ya, _, za, _) := ck_coords ck in ck_data ck c (z - za) (y - ya) (x - xa).
+
+Lemma read_back_spec : forall ds x y z c v,
+  (forall ck, In ck ds -> in_chunk ck x y z = true -> chunk_value ck x y z c = v) ->
+  (exists ck, In ck ds /\ in_chunk ck x y z = true) ->
+  read_back ds x y z c = v.
+Proof.
+  intros ds x y z c v Hall (ck0 & Hin0 & Hc0). unfold read_back.
+  destruct (find (fun ck => in_chunk ck x y z) (rev ds)) as [ck|] eqn:E.
+  - apply find_some in E as [Hin Hc]. apply in_rev in Hin.
+    specialize (Hall ck Hin Hc). unfold chunk_value in Hall. exact Hall.
+  - exfalso. pose proof (find_none _ _ E ck0) as Hn. rewrite <- in_rev in Hn.
+    specialize (Hn Hin0). cbv beta in Hn. rewrite Hc0 in Hn. discriminate.
+Qed.
+
+(* chunk indices along one axis *)
+Lemma div_chunk_bounds : forall s n d, 0 < d -> 0 <= s < n ->
+  0 <= s / d < n_chunks n d /\ d * (s / d) <= s < Z.min (d * (s / d + 1)) n.
+Proof.
+  intros s n d Hd Hs. unfold n_chunks.
+  pose proof (Z.div_pos s d ltac:(lia) Hd).
+  pose proof (Z.div_le_mono s (n - 1) d Hd ltac:(lia)).
+  pose proof (Z.mul_div_le s d Hd).
+  pose proof (Z.mod_pos_bound s d Hd). pose proof (Z.div_mod s d ltac:(lia)).
+  split; [lia|]. split; [lia|]. apply Z.min_glb_lt; nia.
+Qed.
+
+Lemma in_cells : forall pr ri ci,
+  In (ri, ci) (cells_of pr) <->
+  let '(w, h, _) := pr_isize pr in let '(cw, chh, _) := pr_ichunk pr in
+  0 <= ri < n_chunks h chh /\ 0 <= ci < n_chunks w cw.
+Proof.
+  intros [p3 inv q [[w h] n] [[cw chh] d]] ri ci. unfold cells_of. cbn [pr_isize pr_ichunk].
+  rewrite in_flat_map. split.
+  - intros (r & Hr & Hin). apply in_map_iff in Hin as (c & Heq & Hc). injection Heq as <- <-.
+    apply in_zrange in Hr, Hc. lia.
+  - intros [Hr Hc]. exists ri. split; [apply in_zrange; lia|]. apply in_map_iff. exists ci.
+    split; [reflexivity | apply in_zrange; lia].
+Qed.
+
+Lemma pick3_1 : forall a b c, pick3 1 a b c = a. Proof. reflexivity. Qed.
+Lemma pick3_2 : forall a b c, pick3 2 a b c = b. Proof. reflexivity. Qed.
+Lemma pick3_3 : forall a b c, pick3 3 a b c = c. Proof. reflexivity. Qed.
+Ltac pick_compute :=
+  change (3 - 0) with 3 in *; change (3 - 1) with 2 in *; change (3 - 2) with 1 in *;
+  rewrite ?pick3_1, ?pick3_2, ?pick3_3 in *.
+
+Lemma flat_map_length_const : forall {A B} (f : A -> list B) k l,
+  (forall a, length (f a) = k) -> length (flat_map f l) = (length l * k)%nat.
+Proof.
+  intros A B f k l H. induction l as [|a l IH]; [reflexivity|].
+  cbn [flat_map length]. rewrite app_length, H, IH. lia.
+Qed.
+
+Lemma cells_length : forall pr,
+  length (cells_of pr) =
+  (let '(w, h, _) := pr_isize pr in let '(cw, chh, _) := pr_ichunk pr in
+   Z.to_nat (n_chunks h chh) * Z.to_nat (n_chunks w cw))%nat.
+Proof.
+  intros [p3 inv q [[w h] n] [[cw chh] d]]. unfold cells_of. cbn [pr_isize pr_ichunk].
+  rewrite (flat_map_length_const _ (Z.to_nat (n_chunks w cw))).
+  - rewrite zrange_length. reflexivity.
+  - intro a. rewrite map_length, zrange_length. reflexivity.
+Qed.
+
+Ltac in_chunk_hyps Hck :=
+  unfold in_chunk in Hck; cbn [ck_coords] in Hck;
+  repeat (apply andb_prop in Hck as [Hck ?]);
+  repeat match goal with Hb : (_ <=? _) = true |- _ => apply Z.leb_le in Hb
+                       | Hb : (_ <? _) = true |- _ => apply Z.ltb_lt in Hb end.
+
+Ltac group_bound :=
+  match goal with Hg' : 0 <= ?g < 0 + n_chunks ?nn ?dd |- _ =>
+    assert (dd * g < nn) by
+     (unfold n_chunks in Hg';
+      pose proof (Z.mul_div_le (nn - 1) dd ltac:(lia));
+      assert (dd * g <= dd * ((nn - 1) / dd)) by (apply Z.mul_le_mono_nonneg_l; lia); lia) end.
+
+Ltac value_tac j c :=
+  let ck := fresh "ck" in let Hin := fresh "Hin" in let Hck := fresh "Hck" in
+  let g := fresh "g" in let Hg := fresh "Hg" in let ri := fresh "ri" in let ci := fresh "ci" in
+  let Hcell := fresh "Hcell" in
+  intros ck Hin Hck; apply in_flat_map in Hin as (g & Hg & Hin);
+  apply in_map_iff in Hin as ([ri ci] & <- & Hcell);
+  apply in_zrange in Hg; apply in_cells in Hcell; cbn [pr_isize pr_ichunk] in Hcell;
+  in_chunk_hyps Hck;
+  unfold chunk_value; cbn [ck_coords ck_data]; unfold sub_block;
+  group_bound;
+  rewrite group_block_at; try assumption; pick_compute; try lia;
+  unfold gen_designated; pick_compute;
+  destruct (channel_source (j_dirs j) 0 c) as [[? ?]|]; [|reflexivity];
+  do 2 f_equal; first [lia | f_equal; lia].
+
+Ltac cover_tac x y z :=
+  match goal with
+  | pr := {| pr_p := (?p0, ?p1, ?p2); pr_inv := _; pr_q := _; pr_isize := (?w, ?h, ?n);
+             pr_ichunk := (?cw, ?chh, ?d) |} |- _ =>
+      let B1 := fresh "B" in let B2 := fresh "B" in let B3 := fresh "B" in
+      assert (B1 := div_chunk_bounds (pick3 (3 - p2) z y x) n d);
+      assert (B2 := div_chunk_bounds (pick3 (3 - p1) z y x) h chh);
+      assert (B3 := div_chunk_bounds (pick3 (3 - p0) z y x) w cw);
+      pick_compute;
+      specialize (B1 ltac:(lia) ltac:(lia)); specialize (B2 ltac:(lia) ltac:(lia));
+      specialize (B3 ltac:(lia) ltac:(lia));
+      eexists; split;
+      [ apply in_flat_map; eexists; split; [apply in_zrange; apply B1|];
+        apply in_map_iff; eexists (_, _); split; [reflexivity|];
+        apply in_cells; cbn [pr_isize pr_ichunk]; split; [apply B2 | apply B3]
+      | unfold in_chunk; cbn [ck_coords];
+        repeat (apply andb_true_intro; split);
+        first [apply Z.leb_le; lia | apply Z.ltb_lt; lia] ]
+  end.
+
+Lemma forward_generic : forall p0 p1 p2 i0 i1 q sx sy sz cx cy cz w h n cw chh d j,
+  In [p0; p1; p2] six_perms -> invert_permutation [p0; p1; p2] = Ok q ->
+  permute [sx; sy; sz] [p0; p1; p2] = Ok [w; h; n] ->
+  permute [cx; cy; cz] [p0; p1; p2] = Ok [cw; chh; d] ->
+  0 < sx -> 0 < sy -> 0 < sz -> 0 < cx -> 0 < cy -> 0 < cz ->
+  (i0 = 1 \/ i0 = -1) -> (i1 = 1 \/ i1 = -1) ->
+  j_dirs j <> [] -> forallb (dir_ok w h n) (j_dirs j) = true ->
+  sumZl (map dir_channels (j_dirs j)) = j_nch j ->
+  let pr := {| pr_p := (p0, p1, p2); pr_inv := (i0, i1, 1); pr_q := q;
+               pr_isize := (w, h, n); pr_ichunk := (cw, chh, d) |} in
+  exists ds, run_groups pr j (zrange 0 (n_chunks n d)) [] = (ds, Ok tt) /\
+    (forall x y z c, 0 <= x < sx -> 0 <= y < sy -> 0 <= z < sz -> 0 <= c ->
+       read_back ds x y z c = gen_designated p0 p1 p2 i0 i1 w h (j_dirs j) x y z c) /\
+    (forall x y z, 0 <= x < sx -> 0 <= y < sy -> 0 <= z < sz ->
+       exists ck, In ck ds /\ in_chunk ck x y z = true) /\
+    length ds = (Z.to_nat (n_chunks n d) * (Z.to_nat (n_chunks h chh) * Z.to_nat (n_chunks w cw)))%nat.
+Proof.
+  intros p0 p1 p2 i0 i1 q sx sy sz cx cy cz w h n cw chh d j Hp Hq Hsz Hcs
+         Hsx Hsy Hsz0 Hcx Hcy Hcz Hi0 Hi1 Hne Hdirs Hsum pr.
+  unfold six_perms in Hp. cbn [In] in Hp.
+  repeat (destruct Hp as [Hp|Hp]; [injection Hp as <- <- <-|]); try contradiction;
+  vm_compute in Hq; injection Hq as <-;
+  cbn in Hsz; injection Hsz as <- <- <-; cbn in Hcs; injection Hcs as <- <- <-.
+  all: eexists; split;
+    [ unfold pr; eapply run_groups_forward; try assumption;
+      [ intros g ri ci _; unfold chunk_of; cbn -[group_block Z.mul Z.add Z.min]; reflexivity
+      | intros g Hg; apply in_zrange in Hg; unfold n_chunks in Hg;
+        match goal with |- _ /\ ?dd * g < ?nn =>
+          pose proof (Z.mul_div_le (nn - 1) dd ltac:(lia));
+          assert (dd * g <= dd * ((nn - 1) / dd)) by (apply Z.mul_le_mono_nonneg_l; lia) end; lia ]
+    | ].
+  all: cbn [List.app].
+  all: split; [| split].
+  all: try (intros x y z c Hx Hy Hz Hc; apply read_back_spec; [value_tac j c | cover_tac x y z]).
+  all: try (intros x y z Hx Hy Hz; cover_tac x y z).
+  all: rewrite (flat_map_length_const _ (length (cells_of pr)));
+       [ rewrite zrange_length, cells_length; reflexivity
+       | intro a; rewrite map_length; reflexivity ].
+Qed.
+
+(* ================= the theorems of C15 on the guard ================= *)
+
+Lemma orientation_on_guard_lemma : forall j, c15_guard j = true ->
+  exists ds sx sy sz cx cy cz,
+    j_size j = [sx; sy; sz] /\ j_chunk j = [cx; cy; cz] /\ run j = (ds, Ok tt) /\
+    (forall x y z c, 0 <= x < sx -> 0 <= y < sy -> 0 <= z < sz -> 0 <= c ->
+       read_back ds x y z c = designated (j_code j) (sx, sy, sz) (j_dirs j) x y z c) /\
+    (forall x y z, 0 <= x < sx -> 0 <= y < sy -> 0 <= z < sz ->
+       exists ck, In ck ds /\ in_chunk ck x y z = true) /\
+    length ds = (Z.to_nat (n_chunks sx cx) * Z.to_nat (n_chunks sy cy) * Z.to_nat (n_chunks sz cz))%nat.
+Proof.
+  intros j Hg. unfold c15_guard in Hg. apply andb_prop in Hg as [Hg Hwf]. apply andb_prop in Hg as [Hc Hfw].
+  destruct (job_wf_fields j Hwf) as (sx & sy & sz & cx & cy & cz & w & h & n & d0 & dr & Ej & Hsx & Hsy & Hsz &
+                                      Hcx & Hcy & Hcz & Eis & Hdirs & Hch).
+  pose proof (in_table _ Hc) as Hin.
+  destruct (setup_cases _ Hin sx sy sz cx cy cz (j_nch j) (d0 :: dr))
+    as (p0 & p1 & p2 & i0 & i1 & i2 & q & w' & h' & n' & cw & chh & d & Es & Eis' & Ei2 & Hp & Hq & Hps & Hpc &
+        Hi0 & Hi1 & Hpos & Hcpos & Hdes & Hcount).
+  rewrite Eis in Eis'. injection Eis' as <- <- <-.
+  rewrite Hfw in Ei2. subst i2.
+  destruct (Hpos Hsx Hsy Hsz) as (Hw & Hh & Hn). destruct (Hcpos Hcx Hcy Hcz) as (_ & _ & Hd).
+  assert (Ejd : j_dirs j = d0 :: dr) by (rewrite Ej; reflexivity).
+  assert (Ejs : j_size j = [sx; sy; sz]) by (rewrite Ej; reflexivity).
+  assert (Ejc : j_chunk j = [cx; cy; cz]) by (rewrite Ej; reflexivity).
+  destruct (forward_generic p0 p1 p2 i0 i1 q sx sy sz cx cy cz w h n cw chh d j Hp Hq Hps Hpc
+              Hsx Hsy Hsz Hcx Hcy Hcz Hi0 Hi1) as (ds & Hrun & Hpt & Hcov & Hlen).
+  { rewrite Ejd. discriminate. }
+  { rewrite Ejd. exact Hdirs. }
+  { rewrite Ejd. exact Hch. }
+  exists ds, sx, sy, sz, cx, cy, cz. split; [exact Ejs|]. split; [exact Ejc|]. split.
+  - unfold run. rewrite Hc. cbn [negb]. rewrite Ej at 1. rewrite Es. cbn [pr_isize pr_ichunk].
+    assert (Hfiles : existsb (fun dd => negb (d_files dd =? n)) (j_dirs j) = false).
+    { rewrite Ejd. clear -Hdirs. induction (d0 :: dr) as [|x l IH]; [reflexivity|].
+      cbn [forallb existsb] in *. apply andb_prop in Hdirs as [Hx Hl].
+      repeat (apply andb_prop in Hx as [Hx ?]). rewrite Hx. cbn. apply IH. exact Hl. }
+    rewrite Hfiles. rewrite Ejd at 1. exact Hrun.
+  - split; [|split].
+    + intros x y z c Hx Hy Hz Hcc. rewrite (Hpt x y z c Hx Hy Hz Hcc).
+      rewrite Ejd. symmetry. apply (Hdes Hfw).
+    + exact Hcov.
+    + rewrite Hlen. exact Hcount.
+Qed.
+
+Definition ras_example : job :=
+  mkjob [65; 83; 82]%N 2 3 4 2 2 3 4
+        [{| d_files := 2; d_h := 4; d_w := 3; d_ch := Some 3 |};
+         {| d_files := 2; d_h := 4; d_w := 3; d_ch := None |}].
+
+Lemma guard_nonvacuous : c15_guard ras_example = true /\ snd (run ras_example) = Ok tt /\
+  read_back (fst (run ras_example)) 1 2 3 3 =
+    Some {| s_dir := 1; s_file := 1; s_row := 3; s_col := 2; s_ch := 0 |}.
 Proof. repeat split; vm_compute; reflexivity. Qed.
